@@ -50,7 +50,7 @@ def infer_redirection(url, recursive=True):
         obvious_redirect_match = re.search(OBVIOUS_REDIRECTS_RE, url)
 
         if obvious_redirect_match is not None:
-            if obvious_redirect_match.group(1) == "q":
+            if obvious_redirect_match.group(1).lower() == "q":
                 if "/url?q=" not in url and "/redirect" not in url:
                     return url
 
